@@ -6,6 +6,28 @@ NAMES = ["ক", "খ", "গ", "ঘ", "চ", "ছ", "জ", "ট", "ড", "ত", "
 KEYWORDS = {"নাম", "যদি", "অথবা", "লুপ", "ফাং", "ফেরত", "থামাও", "আবার", "দেখাও", "_দেখাও", "সত্য", "মিথ্যা", "মডিউল"}
 
 
+def _canon_table():
+    """built-in and type names exactly as the Rust source spells them (code points matter:
+    U+09DF vs U+09AF U+09BC), keyed by their NFD form"""
+    import unicodedata, os, sys
+    sys.path.insert(0, os.path.dirname(os.path.abspath(__file__)))
+    import srcfacts
+    f = srcfacts.extract(os.environ.get("PAKHI_REPO", "/repo"))
+    names = list(f["builtins"]) + [w for _, w in f["types"]] + [w for w, _ in f["keywords"]] + [f["platform_const"], f["dirname_const"]]
+    return {unicodedata.normalize("NFD", n): n for n in names}
+
+
+try:
+    _CANON = _canon_table()
+except Exception:
+    _CANON = {}
+
+
+def canon(name):
+    import unicodedata
+    return _CANON.get(unicodedata.normalize("NFD", name), name)
+
+
 def bn_digits(s):
     return "".join(BN[ord(c) - 48] if "0" <= c <= "9" else c for c in s)
 
@@ -27,9 +49,9 @@ def num_text(x):
 # ('call', callee_expr, [args]) ('idx', e, i) ('list', [es]) ('rec', [(k, v)]) ('raw', [tokens])
 
 def num(x): return ("num", num_text(x))
-def s(v): return ("str", v)
+def s(v): return ("str", canon(v))
 def b(v): return ("bool", v)
-def var(n): return ("var", n)
+def var(n): return ("var", canon(n))
 def bin_(op, l, r): return ("bin", op, l, r)
 def un(op, e): return ("un", op, e)
 def grp(e): return ("grp", e)
